@@ -901,3 +901,249 @@ def rule_kfact(ctx: Ctx) -> List[Ob]:
                           ("" if okd else ": a second code path computes the factor by another formula"),
                           construct=f"factorize_k: return {short(r.value, 40)}"))
     return obs
+
+
+# ------------------------------------------------------------------ K of the subspace step (C09)
+class _Tri:
+    """linear combinations of the strictly-lower / diagonal / strictly-upper parts of a few named matrices:
+    {(name, part, transposed): coefficient}; enough to decide identities such as
+    tril(S'Y, -1) - S'ZZ'Y == tril(S'AA'Y, -1) - triu(S'ZZ'Y)   given   S'Y = S'ZZ'Y + S'AA'Y"""
+    PARTS = ("sl", "d", "su")
+
+    def __init__(self, terms=None):
+        self.t: Dict[tuple, sp.Expr] = {k: v for k, v in (terms or {}).items() if sp.simplify(v) != 0}
+
+    @staticmethod
+    def full(name: str, sym: bool = False) -> "_Tri":
+        x = _Tri({(name, p, False): sp.Integer(1) for p in _Tri.PARTS})
+        x.symm = sym
+        return x
+
+    def _norm_key(self, k):
+        # key (name, part, tr) denotes `part` of (name^T if tr else name)
+        name, part, tr = k
+        if name in _Tri.SYMMETRIC:
+            tr = False          # X^T = X
+        if part == "d":
+            tr = False          # the diagonal of X^T is the diagonal of X
+        return (name, part, tr)
+
+    SYMMETRIC = {"Y'ZZ'Y", "S'AA'S", "S'ZZ'S", "Y'AA'Y", "D"}
+
+    def add(self, o: "_Tri", sign=1) -> "_Tri":
+        t = dict(self.t)
+        for k, v in o.t.items():
+            t[k] = t.get(k, 0) + sign * v
+        return _Tri(t)
+
+    def scale(self, c) -> "_Tri":
+        return _Tri({k: c * v for k, v in self.t.items()})
+
+    def T(self) -> "_Tri":
+        out = {}
+        for (name, part, tr), v in self.t.items():
+            k = self._norm_key((name, {"sl": "su", "su": "sl", "d": "d"}[part], not tr))
+            out[k] = out.get(k, 0) + v
+        return _Tri(out)
+
+    def keep(self, parts) -> "_Tri":
+        """the given parts of the matrix this combination denotes (every term already names the part it occupies)"""
+        return _Tri({k: v for k, v in self.t.items() if k[1] in parts})
+
+    def canon(self) -> Dict[tuple, sp.Expr]:
+        out = {}
+        for k, v in self.t.items():
+            k2 = self._norm_key(k)
+            out[k2] = sp.simplify(out.get(k2, 0) + v)
+        return {k: v for k, v in out.items() if v != 0}
+
+    def __repr__(self):
+        return " + ".join(f"({v})*{p}({n}){'^T' if tr else ''}" for (n, p, tr), v in sorted(self.canon().items(), key=repr)) or "0"
+
+
+def _factors(m) -> Optional[list]:
+    """flatten a canonical product ('mm', ..) into [(symbol, transposed)]"""
+    if m[0] == "mm":
+        a, b = _factors(m[1]), _factors(m[2])
+        return None if a is None or b is None else a + b
+    if m[0] == "sym":
+        return [(m[1], False)]
+    if m[0] == "T":
+        inner = _factors(m[1])
+        return None if inner is None else [(s_, not t_) for s_, t_ in reversed(inner)]
+    return None
+
+
+@rule("KFORM", min_instances=4)
+def rule_kform(ctx: Ctx) -> List[Ob]:
+    """the matrix K of the reduced system (Byrd-Lu-Nocedal eq. 5.x) is assembled as
+    [[-D - Y'ZZ'Y/theta, (L_A - R_Z)'], [L_A - R_Z, theta S'AA'S]] with L_A - R_Z = L - S'ZZ'Y
+    (L, D the strictly lower and diagonal parts of S'Y = S'ZZ'Y + S'AA'Y): decided in an algebra of triangular parts,
+    so that the documented spelling tril(S'AA'Y, -1) - triu(S'ZZ'Y) and the implemented one L - S'ZZ'Y are the same"""
+    f = ctx.repo.func("subspacemin.form_k_from_za")
+    obs: List[Ob] = []
+    theta = sp.Symbol("theta", positive=True)
+    P, Q = _Tri.full("S'ZZ'Y"), _Tri.full("S'AA'Y")
+    base = {"mats.L": P.keep({"sl"}).add(Q.keep({"sl"})), "mats.D": _Tri({("D", "d", False): sp.Integer(1)}),
+            "mats.theta": theta}
+    NAMES = {("mats.S", "Z", "mats.Y"): ("S'ZZ'Y", False), ("mats.Y", "Z", "mats.S"): ("S'ZZ'Y", True),
+             ("mats.S", "A", "mats.Y"): ("S'AA'Y", False), ("mats.Y", "A", "mats.S"): ("S'AA'Y", True),
+             ("mats.Y", "Z", "mats.Y"): ("Y'ZZ'Y", False), ("mats.S", "A", "mats.S"): ("S'AA'S", False),
+             ("mats.S", "Z", "mats.S"): ("S'ZZ'S", False), ("mats.Y", "A", "mats.Y"): ("Y'AA'Y", False)}
+    env: Dict[str, object] = dict(base)
+
+    def ev(e: ast.expr):
+        k = src(e)
+        if k in env:
+            return env[k]
+        if isinstance(e, ast.Constant) and isinstance(e.value, (int, float)):
+            return sp.nsimplify(e.value)
+        if isinstance(e, ast.UnaryOp) and isinstance(e.op, ast.USub):
+            v = ev(e.operand)
+            return v.scale(-1) if isinstance(v, _Tri) else -v
+        if isinstance(e, ast.Attribute) and e.attr == "T":
+            v = ev(e.value)
+            return v.T() if isinstance(v, _Tri) else v
+        if isinstance(e, ast.Call) and dotted(e.func) == "np.transpose" and len(e.args) == 1:
+            v = ev(e.args[0])
+            return v.T() if isinstance(v, _Tri) else v
+        if isinstance(e, ast.Call) and dotted(e.func) in ("np.tril", "np.triu") and e.args:
+            v = ev(e.args[0])
+            kk = e.args[1] if len(e.args) > 1 else kw(e, "k")
+            kv = int(src(kk)) if kk is not None else 0
+            need(isinstance(v, _Tri) and kv in (-1, 0, 1), f"KFORM: `{short(e)}` not understood")
+            lower = dotted(e.func) == "np.tril"
+            parts = {"sl"} | ({"d"} if kv >= 0 else set()) | ({"su"} if kv >= 1 else set()) if lower else \
+                {"su"} | ({"d"} if kv <= 0 else set()) | ({"sl"} if kv <= -1 else set())
+            return v.keep(parts)
+        if isinstance(e, ast.BinOp) and isinstance(e.op, (ast.Add, ast.Sub)):
+            a, b = ev(e.left), ev(e.right)
+            need(isinstance(a, _Tri) == isinstance(b, _Tri), f"KFORM: `{short(e)}` mixes a matrix and a scalar")
+            if isinstance(a, _Tri):
+                return a.add(b, 1 if isinstance(e.op, ast.Add) else -1)
+            return a + b if isinstance(e.op, ast.Add) else a - b
+        if isinstance(e, ast.BinOp) and isinstance(e.op, (ast.Mult, ast.Div)):
+            a, b = ev(e.left), ev(e.right)
+            if isinstance(a, _Tri) and not isinstance(b, _Tri):
+                return a.scale(b if isinstance(e.op, ast.Mult) else 1 / b)
+            if isinstance(b, _Tri) and not isinstance(a, _Tri) and isinstance(e.op, ast.Mult):
+                return b.scale(a)
+            need(not isinstance(a, _Tri) and not isinstance(b, _Tri), f"KFORM: product `{short(e)}` not understood")
+            return a * b if isinstance(e.op, ast.Mult) else a / b
+        if isinstance(e, ast.Call) and dotted(e.func) in ("np.asarray", "np.array", "np.ascontiguousarray") and len(e.args) == 1:
+            return ev(e.args[0])
+        if isinstance(e, ast.IfExp) and is_empty_test(e.test) is not None:
+            # conditional expression form of the empty-projection guard
+            return ev(e.orelse if is_empty_test(e.test) else e.body)
+        if isinstance(e, ast.IfExp) and isinstance(e.test, ast.Compare) and len(e.test.ops) == 1 and isinstance(e.test.ops[0], (ast.Is, ast.IsNot)):
+            same = src(e.test.left) == src(e.test.comparators[0])      # `V is U`: the same attribute of the same object, or two different ones
+            return ev(e.body if same == isinstance(e.test.ops[0], ast.Is) else e.orelse)
+        # a product chain U' P P' V (temporaries holding partial products are substituted back)
+        import copy as _cp
+
+        class _Back(ast.NodeTransformer):
+            def visit_Name(self, n_):
+                if n_.id in raw:
+                    return self.visit(_cp.deepcopy(raw[n_.id]))
+                return n_
+
+            def visit_Call(self, c_):
+                self.generic_visit(c_)
+                if dotted(c_.func) in ("np.asarray", "np.array", "np.ascontiguousarray") and len(c_.args) == 1:
+                    return c_.args[0]
+                return c_
+
+            def visit_IfExp(self, x_):
+                self.generic_visit(x_)
+                if isinstance(x_.test, ast.Compare) and len(x_.test.ops) == 1 and isinstance(x_.test.ops[0], (ast.Is, ast.IsNot)):
+                    same = src(x_.test.left) == src(x_.test.comparators[0])
+                    return x_.body if same == isinstance(x_.test.ops[0], ast.Is) else x_.orelse
+                return x_
+        e = _Back().visit(_cp.deepcopy(e))
+        fs = _factors(_mx(e, {}))
+        if fs is not None and len(fs) == 4:
+            (u, ut), (p1, t1), (p2, t2), (v, vt) = fs
+            if ut and not t1 and t2 and not vt and p1 == p2 and (u, p1, v) in NAMES:
+                nm, tr = NAMES[(u, p1, v)]
+                x = _Tri.full(nm)
+                return x.T() if tr else x
+        raise AnalysisError(f"KFORM: expression `{short(e, 60)}` not understood")
+
+    # straight-line interpretation; the empty-projection branches (Z or A without rows) are skipped: they only replace a
+    # product that is zero anyway by an explicit zero matrix
+    blocks: Dict[tuple, object] = {}
+    half = None
+    raw: Dict[str, ast.expr] = {}      # temporaries that are not a matrix of the algebra by themselves (partial products)
+
+    def is_empty_test(t) -> Optional[bool]:
+        """True if the test holds exactly when the projection is EMPTY"""
+        if isinstance(t, ast.Compare) and len(t.ops) == 1 and isinstance(t.comparators[0], ast.Constant) and t.comparators[0].value == 0 \
+                and src(t.left) in ("Z.shape[0]", "A.shape[0]", "Z.shape[1]", "A.shape[1]", "Z.size", "A.size"):
+            return True if isinstance(t.ops[0], ast.Eq) else False if isinstance(t.ops[0], (ast.NotEq, ast.Gt)) else None
+        return None
+
+    def rngk(sl) -> Optional[int]:
+        if isinstance(sl, ast.Slice) and sl.step is None:
+            if sl.lower is None and sl.upper is not None and src(sl.upper) == half:
+                return 0
+            if sl.upper is None and sl.lower is not None and src(sl.lower) == half:
+                return 1
+        if isinstance(sl, ast.Name) and src(sl) in slices:
+            return slices[src(sl)]
+        return None
+    slices: Dict[str, int] = {}
+
+    def run(stmts):
+        nonlocal half
+        for s_ in stmts:
+            if isinstance(s_, ast.Expr):
+                continue
+            if isinstance(s_, ast.If):
+                et = is_empty_test(s_.test)
+                need(et is not None, f"KFORM: branch on `{short(s_.test)}` not understood")
+                run(s_.orelse if et else s_.body)
+                continue
+            if isinstance(s_, ast.Return):
+                continue
+            if isinstance(s_, (ast.Assign, ast.AnnAssign)) and getattr(s_, "value", None) is not None:
+                t = s_.targets[0] if isinstance(s_, ast.Assign) else s_.target
+                v = s_.value
+                if isinstance(t, ast.Name):
+                    if isinstance(v, ast.Call) and dotted(v.func) in ("np.zeros", "np.empty"):
+                        continue                       # allocation of K
+                    if src(v).replace(" ", "") in ("mats.L.shape[0]", "mats.D.shape[0]", "mats.S.shape[1]", "mats.Y.shape[1]", "len(mats.L)"):
+                        half = t.id
+                        continue
+                    if isinstance(v, ast.Call) and dotted(v.func) == "slice" and half is not None:
+                        a_ = [src(x) for x in v.args]
+                        if a_ in (["None", half], [half]):
+                            slices[t.id] = 0
+                            continue
+                        if a_ == [half, "None"]:
+                            slices[t.id] = 1
+                            continue
+                    try:
+                        env[t.id] = ev(v)
+                    except AnalysisError:
+                        raw[t.id] = v
+                    continue
+                if isinstance(t, ast.Subscript) and isinstance(t.slice, ast.Tuple) and len(t.slice.elts) == 2:
+                    a_, b_ = rngk(t.slice.elts[0]), rngk(t.slice.elts[1])
+                    need(a_ is not None and b_ is not None, f"KFORM: block store `{short(t)}` not understood")
+                    blocks[(a_, b_)] = (ev(v), s_)
+                    continue
+            raise AnalysisError(f"KFORM: statement `{short(s_, 60)}` not understood")
+    body = [s_ for s_ in f.node.body if not (isinstance(s_, ast.Expr) and isinstance(s_.value, ast.Constant))]
+    run(body)
+    # K returned as an assembled expression instead of block stores
+    need(len(blocks) == 4, f"KFORM: {len(blocks)} of the 4 blocks of K found")
+    K21 = Q.keep({"sl"}).add(P.keep({"d", "su"}), -1)            # L_A - R_Z
+    ref = {(0, 0): _Tri({("D", "d", False): sp.Integer(-1)}).add(_Tri.full("Y'ZZ'Y").scale(-1 / theta)),
+           (1, 0): K21, (0, 1): K21.T(), (1, 1): _Tri.full("S'AA'S").scale(theta)}
+    names = {(0, 0): "-D - Y'ZZ'Y / theta", (1, 0): "L_A - R_Z", (0, 1): "(L_A - R_Z)'", (1, 1): "theta S'AA'S"}
+    for k_, r_ in ref.items():
+        got, at = blocks[k_]
+        ok = isinstance(got, _Tri) and got.canon() == r_.canon()
+        obs.append(ob("KFORM", f"block {k_} of K is {names[k_]}", f, at, ok,
+                      f"K{k_} = {got}" + ("" if ok else f"; reference {r_}"), construct=f"K block {k_}"))
+    return obs
